@@ -124,7 +124,14 @@ class Enum(SerializableField, metaclass=_EnumMeta):
     def _validate(self, value):
         if self._is_enum:
             enum_names = {v.name for v in self._valid_enum_values}
-            if not (isinstance(value, str) and value in enum_names) and value not in self._valid_enum_values:
+            # a member of a `class X(str, Enum)` is a str too (and a plain str can be == to such a
+            # member): only a str that is not a member is looked up as a name
+            plain_str = isinstance(value, str) and not isinstance(value, enum.Enum)
+            if (
+                value not in enum_names
+                if plain_str
+                else value not in self._valid_enum_values
+            ):
                 enum_values = [r.name for r in self._valid_enum_values]
                 if len(enum_values) < 11:
                     raise ValueError(
@@ -167,7 +174,7 @@ class Enum(SerializableField, metaclass=_EnumMeta):
     def __set__(self, instance, value):
         self._validate(value)
         if self._is_enum:
-            if isinstance(value, (str,)):
+            if isinstance(value, (str,)) and not isinstance(value, enum.Enum):
                 value = self._enum_class[value]
         super().__set__(instance, value)
 
